@@ -10,6 +10,7 @@ import (
 	"regexp"
 	"strings"
 	"time"
+	"verif/vs"
 
 	"mellium.im/sasl"
 	"mellium.im/xmpp"
@@ -38,6 +39,8 @@ var firstLists = []struct{ name, xml string }{
 	{"unknown-only", `<other xmlns='urn:other'/>`},
 	{"starttls-among-others", `<mechanisms xmlns='` + saslNS + `'><mechanism>PLAIN</mechanism></mechanisms><starttls xmlns='` + tlsNS + `'/><bind xmlns='` + bindNS + `'/>`},
 	{"bind-only", `<bind xmlns='` + bindNS + `'/>`},
+	{"starttls-required-among-others", `<starttls xmlns='` + tlsNS + `'><required/></starttls><mechanisms xmlns='` + saslNS + `'><mechanism>PLAIN</mechanism></mechanisms>`},
+	{"others-before-starttls-required", `<bind xmlns='` + bindNS + `'/><mechanisms xmlns='` + saslNS + `'><mechanism>PLAIN</mechanism></mechanisms><starttls xmlns='` + tlsNS + `'><required/></starttls>`},
 }
 
 const fakeFeatures = `<stream:stream xmlns='jabber:client' xmlns:stream='` + streamNS + `' version='1.0' id='fake' from='example.com'><stream:features><mechanisms xmlns='` + saslNS + `'><mechanism>PLAIN</mechanism></mechanisms></stream:features>`
@@ -83,6 +86,13 @@ func normalise(s string) string { return idRe.ReplaceAllString(s, "id='*'") }
 func header(domain string) string {
 	return `<stream:stream xmlns='jabber:client' xmlns:stream='` + streamNS + `' version='1.0' id='s1' from='` + domain + `'>`
 }
+
+// mapOrder, if set, owns the map iteration order of the library during run.
+var mapOrder *nd.Ctx
+
+// sharedNegotiator, if set, is used instead of a fresh negotiator (histories of
+// sessions negotiated with one Negotiator value).
+var sharedNegotiator xmpp.Negotiator
 
 // run performs one negotiation of an initiating session against the scripted peer.
 func run(feature xmpp.StreamFeature, cfg clientCfg, origin jid.JID, list, answer int) observation {
@@ -180,14 +190,27 @@ func runAt(feature xmpp.StreamFeature, cfg clientCfg, location, origin jid.JID, 
 	if WrapConn != nil {
 		rw = WrapConn(conn)
 	}
-	obs.panic = nd.Catch(func() {
+	negotiate := func() {
 		ctx := context.Background()
 		if WrapCtx != nil {
 			ctx = WrapCtx(ctx)
 		}
-		s, err = xmpp.NewSession(ctx, location, origin, rw, 0, xmpp.NewNegotiator(func(*xmpp.Session, *xmpp.StreamConfig) xmpp.StreamConfig {
-			return xmpp.StreamConfig{Features: features, TeeIn: teeIn, TeeOut: teeOut}
-		}))
+		neg := sharedNegotiator
+		if neg == nil {
+			neg = xmpp.NewNegotiator(func(*xmpp.Session, *xmpp.StreamConfig) xmpp.StreamConfig {
+				return xmpp.StreamConfig{Features: features, TeeIn: teeIn, TeeOut: teeOut}
+			})
+		}
+		s, err = xmpp.NewSession(ctx, location, origin, rw, 0, neg)
+	}
+	obs.panic = nd.Catch(func() {
+		if mapOrder != nil {
+			// the order in which the library walks its feature tables is part of
+			// the enumeration
+			vs.WithChooser(mapOrder, negotiate)
+		} else {
+			negotiate()
+		}
 	})
 	written := conn.Written()
 	// split at the first TLS record (handshake record type 0x16, version 3.x)
@@ -253,7 +276,9 @@ func scenarioBody(c *nd.Ctx) nd.Result {
 	desc := fmt.Sprintf("first-list=%s answer=%s explicit-tls-config=%v tee=%d other-features=%v", firstLists[list].name, answers[answer].name, cfg.explicitTLS, cfg.tee, cfg.others)
 	c.Note("%s", desc)
 	res := nd.Result{Outcome: "error", NonTrivial: desc}
+	mapOrder = c
 	obs := run(mk(), cfg, origin, list, answer)
+	mapOrder = nil
 	fail := func(sig, f string, a ...any) nd.Result {
 		res.Violation = &nd.Violation{Sig: sig, Msg: desc + fmt.Sprintf(" [outcome=%s err=%q state=%v tls-version=%x handshaken=%v pre-TLS bytes=%q]: ", obs.outcome, obs.err, obs.state, obs.version, obs.handshaken, obs.preTLS) + fmt.Sprintf(f, a...)}
 		return res
@@ -320,10 +345,17 @@ func historyBody(c *nd.Ctx) nd.Result {
 	n := 2 + c.Choose(2, "sessions")
 	domains := []string{"example.com", "example.org", "other.example"}
 	order := c.Choose(3, "first-domain")
-	list := c.Choose(2, "first-features")
+	list := c.Choose(4, "first-features") // starttls required / optional / empty list / mechanisms only
 	otherLocation := c.Choose(2, "location-differs-from-own-domain") == 1
 	f := xmpp.StartTLS(nil)
-	desc := fmt.Sprintf("%d sessions negotiated with one StartTLS(nil) value, starting with domain %s, first list %s", n, domains[order], firstLists[list].name)
+	reuseNegotiator := c.Choose(2, "one-negotiator-value-for-all-sessions") == 1
+	if reuseNegotiator {
+		sharedNegotiator = xmpp.NewNegotiator(func(*xmpp.Session, *xmpp.StreamConfig) xmpp.StreamConfig {
+			return xmpp.StreamConfig{Features: []xmpp.StreamFeature{f}}
+		})
+		defer func() { sharedNegotiator = nil }()
+	}
+	desc := fmt.Sprintf("%d sessions negotiated with one StartTLS(nil) value (one Negotiator value: %v), starting with domain %s, first list %s", n, reuseNegotiator, domains[order], firstLists[list].name)
 	c.Note("%s", desc)
 	res := nd.Result{Outcome: "history", NonTrivial: desc}
 	for i := 0; i < n; i++ {
